@@ -2587,7 +2587,10 @@ class VM:
         """Delete property from object."""
         if isinstance(obj, JSObject):
             key_str = self._to_property_key(key)
-            return obj.delete(key_str)
+            if self._is_array_element(obj, key_str):
+                return False  # an element or length: arrays have no holes
+            obj.delete(key_str)
+            return True  # also when there was no such property: nothing is left
         if isinstance(obj, JSFunction):
             getattr(obj, "_properties", {}).pop(self._to_property_key(key), None)
             return True
